@@ -129,7 +129,7 @@ def _case(draw):
             # earlier settings of the same LabSetup object: "detection" = the same three pulse polarisations with
             # another detection polarisation, "all" = four other polarisations; and a second polarisation tuple with
             # which existing pathway objects are averaged again on the re-set lab object
-            "lab_history": draw(st.sampled_from([None, None, "detection", "all"])),
+            "lab_history": draw(st.sampled_from([None, None, "detection", "all", "fields", "fields-prop"])),
             "reaverage": draw(st.booleans())}
 
 
@@ -153,7 +153,7 @@ class ReadChanged(HarnessError):
 
 
 def response(qr, mols, J, pols, t2i, shape, mult=2, want_pathways=False, deph_common=None, read_order=None,
-             lab_history=None, want_lab=False):
+             lab_history=None, want_lab=False, lab_route=None):
     """(REPH, NONR, TOTAL [, pathways, aggregate]) of the mock calculator for the given system"""
     from quantarhei.spectroscopy.mocktwodcalculator import MockTwoDResponseCalculator
     n = len(mols)
@@ -191,7 +191,15 @@ def response(qr, mols, J, pols, t2i, shape, mult=2, want_pathways=False, deph_co
     for hp in (lab_history or []):
         # the laboratory set-up object had other polarisations before (e.g. an analyser scan)
         lab.set_pulse_polarizations(pulse_polarizations=(hp[0], hp[1], hp[2]), detection_polarization=hp[3])
-    lab.set_pulse_polarizations(pulse_polarizations=(pols[0], pols[1], pols[2]), detection_polarization=pols[3])
+    if lab_route in ("fields", "fields-prop"):
+        # the pulse polarisations are changed one by one through the pulses' LabField objects
+        for k in range(3):
+            if lab_route == "fields":
+                lab.get_labfield(k).set_polarization(numpy.array(pols[k], dtype=float))
+            else:
+                lab.get_labfield(k).pol = numpy.array(pols[k], dtype=float)
+    else:
+        lab.set_pulse_polarizations(pulse_polarizations=(pols[0], pols[1], pols[2]), detection_polarization=pols[3])
     pw = {}
     t2 = float(t2axis.data[t2i])
     resp = calc.calculate_one_system(t2, agg, eUt, lab, pways=pw)
@@ -233,13 +241,17 @@ def check_case(case, ctx):
         hist = [[pols[0], pols[1], pols[2], alt]]
     elif case.get("lab_history") == "all":
         hist = [[pols[1], pols[2], pols[3], pols[0]], [pols[3], pols[0], pols[1], pols[2]]]
+    elif case.get("lab_history") in ("fields", "fields-prop"):
+        # other pulse polarisations first (the same detection), then the pulses are set through LabField objects
+        hist = [[pols[1], pols[2], pols[0], pols[3]]]
     if hist:
         ctx.label("lab-object-reused:" + case["lab_history"])
     lab = None
     try:
         ok, r = guarded(ctx, "response", lambda: response(qr, mols, J, pols, t2i, shape, want_pathways=True, deph_common=dc,
                                                           read_order=case.get("read_order"), lab_history=hist,
-                                                          want_lab=True), tag)
+                                                          want_lab=True,
+                                                          lab_route=case.get("lab_history")), tag)
     except ReadChanged as e:
         ctx.fail("reading-changes-the-response", tag, part=e.part, change=e.dev, order="".join(e.order))
         return
